@@ -30,7 +30,7 @@ def main():
     ap.add_argument("prop", nargs="?")
     ap.add_argument("--tier", default=os.environ.get("VERIF_TIER", "quick"))
     ap.add_argument("--replay")
-    ap.add_argument("--only", help="substring filter on group names (debugging; evidence not written)")
+    ap.add_argument("--only", default=os.environ.get("VERIF_ONLY") or None, help="substring filter on group names (debugging; evidence not written)")
     ap.add_argument("--list", action="store_true")
     ap.add_argument("--jobs", type=int, default=int(os.environ.get("VERIF_JOBS", "0")) or None)
     ap.add_argument("--keep", action="store_true")
